@@ -29,15 +29,15 @@ KbExpected(w) == LET c == CheckWord(w) IN IF c[1] = "err" THEN c ELSE G2[1].out[
 Conforms ==
   LET base == W[r].base IN
   LET res == <<
-     ReportAll({ x \in 0..255 : base + x < 2048 /\ W[r].r[x + 1] # CheckWord(base + x) },
+     ReportAllB({ x \in 0..255 : base + x < 2048 /\ W[r].r[x + 1] # CheckWord(base + x) },
        LAMBDA x : [prop |-> IF W[r].r[x + 1][1] = "panic" THEN "C08" ELSE "C05", also |-> <<"C05">>,
                    kind |-> "word", comp |-> "frame", word |-> base + x,
                    observed |-> W[r].r[x + 1], expected |-> CheckWord(base + x)]),
-     ReportAll({ x \in 0..255 : base + x < 2048 /\ W[r].kb[x + 1] # KbExpected(base + x) },
+     ReportAllB({ x \in 0..255 : base + x < 2048 /\ W[r].kb[x + 1] # KbExpected(base + x) },
        LAMBDA x : [prop |-> IF W[r].kb[x + 1][1] = "panic" THEN "C08" ELSE "C05", also |-> <<"C05">>,
                    kind |-> "word", comp |-> "kb2", word |-> base + x,
                    observed |-> W[r].kb[x + 1], expected |-> KbExpected(base + x)]),
-     ReportAll({ x \in 0..255 : W[r].r[x + 1][1] = "panic" \/ W[r].kb[x + 1][1] = "panic" },
+     ReportAllB({ x \in 0..255 : W[r].r[x + 1][1] = "panic" \/ W[r].kb[x + 1][1] = "panic" },
        LAMBDA x : [prop |-> "C08", kind |-> "word-panic", comp |-> "frame/kb2", word |-> base + x,
                    observed |-> W[r].r[x + 1]]) >>
   IN \A j \in 1..Len(res) : res[j]
